@@ -364,3 +364,53 @@ def gen_acceptor_logon(rng, reset_y=True):
             if kw.get("rs") and persist != "file":
                 h.next_in = kw["rs"]
     return h.line()
+
+
+def _long_order(rng, now, size):
+    """a NewOrderSingle whose encoded size is about `size` bytes (one long Text; legal while < 8 KB)."""
+    f = [(11, word(rng, 4, 8)), (21, "1"), (55, "IBM"), (54, "1"), (60, ts(now)), (40, "1")]
+    pad = max(1, size - 120)
+    f.append((58, "".join(rng.choice("ABCDEFGHJKLMNPQRSTUVWXYZ23456789") for _ in range(pad))))
+    return spec("D", f)
+
+
+def gen_big_batches(rng):
+    """The batch SIZE dimension: total encoded size just below / above Persister::MaxMsgLen (8192) with few long
+    and with many short messages; batches crossing the 82,240-byte reserve of the batch buffer on the last and on an
+    inner message (every single message < 8 KB); application and administrative messages last.  A handful of cases."""
+    out = []
+
+    def hist(persist, role="I"):
+        h = Hist(rng, role, persist, hb=30, asa=0)
+        if role == "I":
+            h.logon_in()
+        return h
+
+    # few long messages around 8192 in total
+    for total, k in ((7900, 2), (8300, 2), (8192 + 600, 3), (8000, 3)):
+        h = hist(rng.choice(["file", "mem"]), rng.choice("IA"))
+        sizes = [total // k] * k
+        h.batch([_long_order(rng, h.now, z) for z in sizes])
+        h.send(h.app_spec())
+        out.append(h.line())
+    # many short ones: 50..80 ordinary orders (about 110 bytes each), last one application / admin
+    for n, last_admin in ((50, False), (66, False), (80, False), (72, True)):
+        h = hist(rng.choice(["file", "mem"]))
+        sps = [spec("D", app_fields(rng, "D", h.now)) for _ in range(n)]
+        if last_admin:
+            sps[-1] = spec("0")
+        h.batch(sps)
+        h.send(h.app_spec())
+        out.append(h.line())
+    # crossing the 82,240-byte reserve: on the last message (11 x ~7.6 KB) and on an inner one (13 x ~7.0 KB)
+    for n, z in ((11, 7600), (13, 7000)):
+        h = hist("file")
+        h.batch([_long_order(rng, h.now, z) for _ in range(n)])
+        h.send(h.app_spec())
+        out.append(h.line())
+    # a long single message for contrast (unaffected by batch accounting)
+    h = hist("file")
+    h.send(_long_order(rng, h.now, 7000))
+    h.batch([_long_order(rng, h.now, 4200), _long_order(rng, h.now, 4200)])
+    out.append(h.line())
+    return out
